@@ -53,7 +53,7 @@ def opModels (fs : List String) : Option String := do
   let [n, p] := fs | none
   let n ← parseNat n; let p ← parseProblem p
   if !p.wf n then some "wf-error" else
-  some (" ".intercalate ((modelsOver n p).map showBools))
+  some (" ".intercalate ((modelsOver n p).map (fun m => "m" ++ showBools m)))
 
 def opEnt (fs : List String) : Option String := do
   let [n, p, c] := fs | none
